@@ -36,7 +36,9 @@ type astSchema struct {
 	Combs       []astComb `json:"combs"`
 }
 
-func le4(v uint32) [4]int { return [4]int{int(v & 255), int(v >> 8 & 255), int(v >> 16 & 255), int(v >> 24)} }
+func le4(v uint32) [4]int {
+	return [4]int{int(v & 255), int(v >> 8 & 255), int(v >> 16 & 255), int(v >> 24)}
+}
 func fromLE4(b []int) uint32 {
 	if len(b) != 4 {
 		return 0
@@ -102,7 +104,7 @@ type drvTLO struct {
 
 type c26Stim struct {
 	ID     string
-	Src    string   // "model" | "repo"
+	Src    string            // "model" | "repo"
 	Files  map[string]string // file name -> content (written to the stimulus directory)
 	Args   []string
 	AST    astSchema
